@@ -83,3 +83,8 @@ CHECKS["C08"] = {
   "note": "Bound objects are of the very class object of the slot's target; no reference cycles; fitting writes.",
   "technique": "model-based property testing: generated operation histories against an object-graph model and an independent byte-level decoder",
 }
+CHECKS["C18"] = {
+  "text": "Exploration: model-based histories (<=12 steps quick, <=40 thorough) on generated HybridClass definitions (10 scalar kinds, String, scalar arrays 1-3 dims static/dynamic any axis order, nested hybrid classes, Ref to hybrid classes, _rename, defaults): set leaf at any depth, array element/slice/whole, hybrid field from dict, Ref field to None/data, copy (default/same buffer/other buffer/other context), move (incl. attempts on nested parts, on classes with references, on objects shared through a reference), assignment of hybrid objects to hybrid-typed fields from the same/another buffer/another context/the field's own object, later writes through the source. After every step, for every live top-level object: dressed attributes == underlying struct == model (shared Python values model shared referents), dressed parts sit at their struct field's offset and buffer, copy/share/refusal semantics and placement as stated. 16 workers x 1000 / 10000 histories + corpus of fixed defects.",
+  "note": "Assigned objects are of the field's own class; BufferNumpy only (one buffer kind per context); dynamic nested objects are assigned only when their layout fits (C11 covers misfits).",
+  "technique": "model-based property testing: generated class definitions and operation histories against a nested-value model with shared referents",
+}
